@@ -25,7 +25,7 @@ def variants(case, sb, g, out, drv, key, thorough):
     r = T.run_real(sb.dir, case, variant='cwd', cwd_mode=lambda b, ins, w: b)
     out.traces_validated += 1; differs(r, 'changing the working directory')
     # (b) the whole input tree moved elsewhere (same directory name)
-    r = T.run_real(sb.dir, case, variant='moved', loc=os.path.join('else', 'where', 'q9'))
+    r = T.run_real(sb.dir, case, variant='moved', loc=os.path.join('+else+', '+where+', '+q9+'))
     out.traces_validated += 1; differs(r, 'moving the input tree')
     # (c) other listing orders
     if inp['kind'] == 'dir':
